@@ -683,8 +683,9 @@ def _inline_callable_aliases(tree):
                     # a bare global: only containers / functions of the module (private names, the cache) are aliased
                     pass
                 mapping[name] = v
-            elif depth == 1 and len(stores.get(root, [])) == 1 and root not in params:
-                # bound method of a local object: only used as a callee
+            elif depth == 1 and ((len(stores.get(root, [])) == 1 and root not in params)
+                                 or (root in params and root not in stores and root not in nested_stores)):
+                # bound method of a local object / of self: only used as a callee
                 mapping[name] = ('method', v)
         if not mapping:
             continue
